@@ -189,13 +189,18 @@ class HeapList(SymList):
     * store(m, arr) re-binds the slot to another array; views taken before a re-binding would keep the old
       array in Python, which is not modelled: reading such a stale view stops the path."""
 
-    def __init__(self, length, rows, cols, entry, kind="list"):
+    def __init__(self, length, rows, cols, entry, kind="list", init=None):
         self.length = length
         self.kind = kind
         self.id = next(_ids)
         self.rows, self.cols, self.entry = rows, cols, entry
         self.gen = 0
         self.item = self._view
+        #: init(m): slot m has been bound to an array of its own.  None = every slot (lists of distinct matrices);
+        #: a list made by `[placeholder] * n` starts with no slot initialised: its slots all refer to ONE placeholder
+        #: object, so reading a slot or writing into it in place is only meaningful after the slot was re-bound --
+        #: the executor makes that an obligation (see Interp.subscript)
+        self.init = init
 
     def _view(self, m):
         from . import terms as T
@@ -236,4 +241,7 @@ class HeapList(SymList):
         self.entry = lambda m2, i, j: T.Ite(T.eq(m2, m), arr_fn(i, j), old_e(m2, i, j))
         self.rows = lambda m2: T.Ite(T.eq(m2, m), shp[0], old_r(m2))
         self.cols = lambda m2: T.Ite(T.eq(m2, m), shp[1], old_c(m2))
+        if self.init is not None:
+            old_i = self.init
+            self.init = lambda m2: T.Or(T.eq(m2, m), old_i(m2))
         self.gen += 1
